@@ -124,6 +124,7 @@ func (fc *FnCtx) callByContract(fr *Frame, st *State, reach string, con *Contrac
 		t := env.evalBool(cl.Expr)
 		fc.oblige(fr, "requires", shortName(callee)+": "+clauseName(cl), reach, t, env.quant, nil)
 	}
+	fc.consume(fr, st, reach, con, vars, con.Consumes, "call "+shortName(callee), "true")
 	pre := st.clone()
 	deferred := fc.applyModifies(st, pre, con, vars)
 	var res Val
@@ -180,6 +181,7 @@ func (fc *FnCtx) callByContractIface(fr *Frame, st *State, reach string, con *Co
 		t := env.evalBool(cl.Expr)
 		fc.oblige(fr, "requires", con.Decl.Name.Name+": "+clauseName(cl), reach, t, env.quant, nil)
 	}
+	fc.consume(fr, st, reach, con, vars, con.Consumes, "call "+con.Decl.Name.Name, "true")
 	pre := st.clone()
 	deferred := fc.applyModifies(st, pre, con, vars)
 	res := fc.freshVal(st, resultType(sig.Results()), "res_"+con.Decl.Name.Name)
@@ -805,6 +807,8 @@ func (fc *FnCtx) verify() {
 		if con.HasMod && !con.ModAll {
 			fc.modTargets, fc.modDeferred = fc.evalModifiesD(st, con, con.Modifies, vars, true)
 		}
+		// tokens the caller hands over are held at entry
+		fc.produce(st, con, vars, con.Consumes)
 	}
 	// vacuity guard: the precondition must be satisfiable
 	cov := fc.oblige(fr, "cover", "precondition satisfiable", "true", "true", false, nil)
@@ -819,6 +823,8 @@ func (fc *FnCtx) verify() {
 	for _, cl := range con.Defines {
 		env := fc.specEnv(st, pre, vars, con.Pkg, fr, cl.Text)
 		fc.assumption("defines clause (ghost definition, assumed at its definition site): " + shortFnName(fn) + ": " + cl.Text)
+		// a ghost FIELD mentioned outside old() is assigned here: forget its current value first
+		fc.ghostAssignTargets(env, cl.Expr)
 		fc.sc.assume(tImp(retReach, env.evalBool(cl.Expr)))
 	}
 	for _, cl := range con.Ensures {
@@ -1019,4 +1025,54 @@ func (fc *FnCtx) frameCond(st *State, name string, targets []modTarget) string {
 			return cond
 		}
 	}
+}
+
+// ghostAssignTargets havocs the ghost-field cells a defines clause talks about
+// (occurrences outside old()), so that the clause acts as an assignment.
+func (fc *FnCtx) ghostAssignTargets(env *SpecEnv, sp Spec) {
+	var walkE func(e ast.Expr)
+	walkE = func(e ast.Expr) {
+		ast.Inspect(e, func(n ast.Node) bool {
+			ce, ok := n.(*ast.CallExpr)
+			if !ok {
+				return true
+			}
+			id, ok := ce.Fun.(*ast.Ident)
+			if !ok {
+				return true
+			}
+			if id.Name == "old" {
+				return false
+			}
+			if g := fc.eng.ghosts[id.Name]; g != nil && g.Field && len(ce.Args) == 1 {
+				ref := refOf(env.expr(ce.Args[0]))
+				fc.storeLoc(env.st, loc{name: "GH$" + g.Name, idx: []string{ref}, sort: g.Ret}, fc.sc.fresh("gdef_"+g.Name, g.Ret))
+			}
+			return true
+		})
+	}
+	var walk func(s Spec)
+	walk = func(s Spec) {
+		switch t := s.(type) {
+		case *SImp:
+			walk(t.L)
+			walk(t.R)
+		case *SIff:
+			walk(t.L)
+			walk(t.R)
+		case *SAnd:
+			walk(t.L)
+			walk(t.R)
+		case *SOr:
+			walk(t.L)
+			walk(t.R)
+		case *SNot:
+			walk(t.X)
+		case *SQuant:
+			// ghost cells indexed by bound variables cannot be assigned pointwise
+		case *SGo:
+			walkE(t.E)
+		}
+	}
+	walk(sp)
 }
